@@ -115,6 +115,9 @@ class TrioRun:
         kw["network_backend"] = self.backend
         self.pool = httpcore.AsyncConnectionPool(**kw)
         self.origins = self._origins_of_calls()
+        from .driver import ind_origin_of
+
+        self.origin_keys = [ind_origin_of(o) for o in self.origins]
         self.clock = trio.testing.MockClock(rate=0.0)
         self.t0 = self.clock.current_time()
         self._undo_clock = None
